@@ -83,6 +83,14 @@ func (o *observer) err(name string, e error) {
 // sameObs compares two observation lists bit for bit.
 func sameObs(a, b []obs) string {
 	if len(a) != len(b) {
+		for i := 0; i < len(a) && i < len(b); i++ {
+			if a[i].name != b[i].name {
+				return fmt.Sprintf("%d observations vs %d: the first has %q (%v) where the second has %q (%v)", len(a), len(b), a[i].name, a[i].vals, b[i].name, b[i].vals)
+			}
+			if _, ok := vlib.Same64(a[i].vals, b[i].vals); !ok {
+				return fmt.Sprintf("%d observations vs %d; %s: %v vs %v", len(a), len(b), a[i].name, a[i].vals, b[i].vals)
+			}
+		}
 		return fmt.Sprintf("%d observations vs %d", len(a), len(b))
 	}
 	for i := range a {
